@@ -128,7 +128,8 @@ class state_machine_base : public FrontEnd
             // If not, this state is simply a terminate state.
             if (m_forward_fn)
             {
-                m_forward_fn(root_sm, &forward_event);
+                const event converted_event(forward_event);
+                m_forward_fn(root_sm, &converted_event);
             }
         }
 
